@@ -39,9 +39,62 @@ const (
 	nMetas  = 3
 )
 
-// body returns a fresh request body number i (three pairwise different bodies).
+// Degenerate-but-valid values (part "degenerate"). They lie outside the pools
+// that the relative edits cycle through (0..nBodies-1, 0..nCreds-1), so a saved
+// scenario of the "random" part means what it meant when it was recorded.
+const (
+	// bodyEmpty: the request is present but empty (&gpb.SubscribeRequest{}).
+	bodyEmpty = 3
+	// bodyNil: the request map lists the name with a nil message. Validate only
+	// asks for the key, so a target may refer to it; handlers then receive
+	// Request == nil.
+	bodyNil = 4
+	// credEmpty: credentials present but empty (&pb.Credentials{}).
+	credEmpty = 3
+)
+
+// normBody maps any integer to a body index (the two degenerate ones are kept).
+func normBody(b int) int {
+	if b == bodyEmpty || b == bodyNil {
+		return b
+	}
+	return mod(b, nBodies)
+}
+
+func normCred(c int) int {
+	if c == credEmpty {
+		return c
+	}
+	return mod(c, nCreds)
+}
+
+// arguable reports whether a and b are the pair "nil message / empty message".
+// Whether replacing one by the other is a change is arguable (both serialise to
+// nothing, proto.Equal on the enclosing message calls them equal, proto.Equal
+// on the two values does not), so the generators never produce that transition
+// for one name (see materialise); everything else about nil values is judged.
+func arguable(a, b, nilV, emptyV int) bool {
+	return a == nilV && b == emptyV || a == emptyV && b == nilV
+}
+
+// Representations of the same content (Load.Repr / Scenario.BaseRepr, bit set).
+const (
+	// reprEmptyMaps: maps and slices without entries are non-nil and empty
+	// instead of nil (request map, target map, meta maps, addresses).
+	reprEmptyMaps = 1
+	// reprNilInner: body 2 carries the subscribe wrapper with a nil
+	// SubscriptionList instead of an empty one (equal content).
+	reprNilInner = 2
+)
+
+// body returns a fresh request body number i (three pairwise different bodies,
+// the empty message and the nil message).
 func body(i int) *gpb.SubscribeRequest {
 	switch i {
+	case bodyEmpty:
+		return &gpb.SubscribeRequest{}
+	case bodyNil:
+		return nil
 	case 0:
 		return &gpb.SubscribeRequest{Request: &gpb.SubscribeRequest_Subscribe{Subscribe: &gpb.SubscriptionList{
 			Prefix:       &gpb.Path{Target: "t"},
@@ -63,6 +116,8 @@ func creds(i int) *pb.Credentials {
 		return &pb.Credentials{Username: "u1", Password: "p1"}
 	case 2:
 		return &pb.Credentials{Username: "u1", PasswordId: "id-7"}
+	case credEmpty:
+		return &pb.Credentials{}
 	}
 	return nil
 }
@@ -133,40 +188,79 @@ func mod(i, n int) int {
 	return i
 }
 
-func (t TargetSpec) build() *pb.Target {
+func (t TargetSpec) build() *pb.Target { return t.buildRepr(0) }
+
+func (t TargetSpec) buildRepr(repr int) *pb.Target {
 	if t.Nil {
 		return nil
 	}
-	return &pb.Target{
+	out := &pb.Target{
 		Addresses:   append([]string(nil), addrPool[mod(t.Addr, len(addrPool))]...),
 		Request:     t.Req,
-		Credentials: creds(mod(t.Cred, nCreds)),
+		Credentials: creds(normCred(t.Cred)),
 		Meta:        meta(mod(t.Meta, nMetas)),
 		Dialer:      dialerPool[mod(t.Dialer, len(dialerPool))],
 	}
+	if repr&reprEmptyMaps != 0 {
+		if out.Addresses == nil {
+			out.Addresses = []string{}
+		}
+		if out.Meta == nil {
+			out.Meta = map[string]string{}
+		}
+	}
+	return out
 }
 
 // build returns a fresh protobuf message for the configuration; nothing in it
 // is shared with any other message.
-func (c *ConfigSpec) build() *pb.Configuration {
+func (c *ConfigSpec) build() *pb.Configuration { return c.buildRepr(0) }
+
+// buildRepr is build in another representation of the same content.
+func (c *ConfigSpec) buildRepr(repr int) *pb.Configuration {
 	cfg := &pb.Configuration{
 		Revision:   c.Rev,
 		InstanceId: instancePool[mod(c.Instance, len(instancePool))],
 		Meta:       meta(mod(c.CfgMeta, nMetas)),
 	}
-	if len(c.Requests) > 0 {
+	if repr&reprEmptyMaps != 0 && cfg.Meta == nil {
+		cfg.Meta = map[string]string{}
+	}
+	if len(c.Requests) > 0 || repr&reprEmptyMaps != 0 {
 		cfg.Request = map[string]*gpb.SubscribeRequest{}
 		for n, b := range c.Requests {
-			cfg.Request[n] = body(mod(b, nBodies))
+			r := body(normBody(b))
+			if repr&reprNilInner != 0 && normBody(b) == 2 {
+				r = &gpb.SubscribeRequest{Request: &gpb.SubscribeRequest_Subscribe{}}
+			}
+			cfg.Request[n] = r
 		}
 	}
-	if len(c.Targets) > 0 {
+	if len(c.Targets) > 0 || repr&reprEmptyMaps != 0 {
 		cfg.Target = map[string]*pb.Target{}
 		for n, t := range c.Targets {
-			cfg.Target[n] = t.build()
+			cfg.Target[n] = t.buildRepr(repr)
 		}
 	}
 	return cfg
+}
+
+// nilRequestTargets returns the names of the targets that refer to a request
+// listed with a nil message.
+func (c *ConfigSpec) nilRequestTargets() map[string]bool {
+	out := map[string]bool{}
+	if c == nil {
+		return out
+	}
+	for n, t := range c.Targets {
+		if t.Nil {
+			continue
+		}
+		if b, ok := c.Requests[t.Req]; ok && normBody(b) == bodyNil {
+			out[n] = true
+		}
+	}
+	return out
 }
 
 // invalidReasons is the reference validity predicate, written from the
@@ -237,7 +331,8 @@ func freeNames(pool []string, used func(string) bool) []string {
 type Edit struct {
 	// Kind: req-edit | req-rename | req-add | req-del | tgt-add | tgt-remove |
 	// tgt-repoint | tgt-addr | tgt-cred | tgt-meta | tgt-dialer | cfg-instance | cfg-meta |
-	// inv-empty-name | inv-nil-target | inv-no-address | inv-missing-request | inv-dangling-request
+	// inv-empty-name | inv-nil-target | inv-no-address | inv-missing-request | inv-dangling-request |
+	// req-nil | req-empty | tgt-cred-empty (degenerate but valid values)
 	Kind string `json:"kind"`
 	Pick int    `json:"pick,omitempty"` // which existing target / request
 	Name int    `json:"name,omitempty"` // which free pool name
@@ -257,9 +352,9 @@ func newTarget(c *ConfigSpec, name string, e Edit) {
 		req = rs[mod(e.Req, len(rs))]
 	} else {
 		req = reqNames[mod(e.Req, len(reqNames))]
-		c.Requests[req] = mod(e.Body, nBodies)
+		c.Requests[req] = normBody(e.Body)
 	}
-	c.Targets[name] = TargetSpec{Addr: 1 + mod(e.Addr, len(addrPool)-1), Req: req, Cred: mod(e.Cred, nCreds), Meta: mod(e.Meta, nMetas), Dialer: mod(e.Dial, len(dialerPool))}
+	c.Targets[name] = TargetSpec{Addr: 1 + mod(e.Addr, len(addrPool)-1), Req: req, Cred: normCred(e.Cred), Meta: mod(e.Meta, nMetas), Dialer: mod(e.Dial, len(dialerPool))}
 }
 
 func freeTarget(c *ConfigSpec, e Edit) (string, bool) {
@@ -296,7 +391,7 @@ func apply(c *ConfigSpec, e Edit) string {
 func applyEdit(c *ConfigSpec, e *Edit) bool {
 	// Valid per-target edits on a configuration without targets fall back to adding one.
 	switch e.Kind {
-	case "tgt-remove", "tgt-repoint", "tgt-addr", "tgt-cred", "tgt-meta", "tgt-dialer":
+	case "tgt-remove", "tgt-repoint", "tgt-addr", "tgt-cred", "tgt-cred-empty", "tgt-meta", "tgt-dialer":
 		if _, ok := pickLive(c, e.Pick); !ok {
 			e.Kind = "tgt-add"
 		}
@@ -331,7 +426,40 @@ func applyEdit(c *ConfigSpec, e *Edit) bool {
 		if len(free) == 0 {
 			return false
 		}
-		c.Requests[free[mod(e.Name, len(free))]] = mod(e.Body, nBodies)
+		c.Requests[free[mod(e.Name, len(free))]] = normBody(e.Body)
+		return true
+	case "req-nil", "req-empty":
+		// The message of an existing request becomes nil / empty. Req chooses
+		// among the requests some target uses (even) or among all of them (odd).
+		rs := sortedRequests(c)
+		if mod(e.Req, 2) == 0 {
+			used := map[string]bool{}
+			for _, t := range c.Targets {
+				if !t.Nil {
+					used[t.Req] = true
+				}
+			}
+			var u []string
+			for _, n := range rs {
+				if used[n] {
+					u = append(u, n)
+				}
+			}
+			if len(u) > 0 {
+				rs = u
+			}
+		}
+		if len(rs) == 0 {
+			return false
+		}
+		n, v := rs[mod(e.Pick, len(rs))], bodyNil
+		if e.Kind == "req-empty" {
+			v = bodyEmpty
+		}
+		if normBody(c.Requests[n]) == v {
+			return false
+		}
+		c.Requests[n] = v
 		return true
 	case "req-del":
 		// Prefer a request no target refers to; deleting a referenced one
@@ -382,7 +510,7 @@ func applyEdit(c *ConfigSpec, e *Edit) bool {
 				return false
 			}
 			r := free[mod(e.Name, len(free))]
-			c.Requests[r] = mod(e.Body, nBodies)
+			c.Requests[r] = normBody(e.Body)
 			others = []string{r}
 		}
 		t.Req = others[mod(e.Req, len(others))]
@@ -403,6 +531,15 @@ func applyEdit(c *ConfigSpec, e *Edit) bool {
 		n, _ := pickLive(c, e.Pick)
 		t := c.Targets[n]
 		t.Cred = mod(t.Cred+1+mod(e.Cred, nCreds-1), nCreds)
+		c.Targets[n] = t
+		return true
+	case "tgt-cred-empty":
+		n, _ := pickLive(c, e.Pick)
+		t := c.Targets[n]
+		if normCred(t.Cred) == credEmpty {
+			return false
+		}
+		t.Cred = credEmpty
 		c.Targets[n] = t
 		return true
 	case "tgt-meta":
@@ -478,6 +615,8 @@ type Load struct {
 	// (0 + Rev if there is no current configuration).
 	RevAbs bool  `json:"rev_abs,omitempty"`
 	Rev    int64 `json:"rev"`
+	// Repr: representation of the message handed to Load (bit set of repr*).
+	Repr int `json:"repr,omitempty"`
 }
 
 // Scenario is a whole case.
@@ -485,7 +624,29 @@ type Scenario struct {
 	// BaseMode: "" = NewConfig; "nil" = NewConfigWithBase(h, nil); "config" = NewConfigWithBase(h, Base).
 	BaseMode string      `json:"base_mode,omitempty"`
 	Base     *ConfigSpec `json:"base,omitempty"`
+	BaseRepr int         `json:"base_repr,omitempty"`
 	Loads    []Load      `json:"loads"`
+}
+
+// settle removes the arguable transitions from spec: a request name / a target
+// name that cur has with a nil message (no credentials) and spec with an empty
+// one, or the other way round, keeps what cur has. Configurations without the
+// degenerate values are never touched.
+func settle(cur, spec *ConfigSpec) {
+	if cur == nil {
+		return
+	}
+	for n, b := range spec.Requests {
+		if ob, ok := cur.Requests[n]; ok && arguable(normBody(ob), normBody(b), bodyNil, bodyEmpty) {
+			spec.Requests[n] = ob
+		}
+	}
+	for n, t := range spec.Targets {
+		if ot, ok := cur.Targets[n]; ok && !t.Nil && !ot.Nil && arguable(normCred(ot.Cred), normCred(t.Cred), 0, credEmpty) {
+			t.Cred = ot.Cred
+			spec.Targets[n] = t
+		}
+	}
 }
 
 // materialise resolves ld against cur (the model's current accepted
@@ -512,6 +673,7 @@ func materialise(cur *ConfigSpec, ld Load) (spec *ConfigSpec, applied []string) 
 			applied = append(applied, k)
 		}
 	}
+	settle(cur, spec)
 	if ld.RevAbs {
 		spec.Rev = ld.Rev
 	} else {
